@@ -9,8 +9,8 @@ CHECKS = {
  "C01": ("exploration", "reference-model monitor (withheld-count formula) over generated + small-scope-exhaustive packetmap histories and over the real rtpDownTrack.Write",
    "Every output of packetmap.Map (public API) and of the real forwarding path is compared with seqno minus the number of earlier withheld packets, with 'withheld' observed, over generated arrival histories (loss, duplicates, reordering, wrap, >66000-packet streams) and ALL histories up to a small depth over an 8-letter alphabet. Held on the executions observed.",
    "Quantifier restricted to the 8192-packet window as the property states; exhaustive only for the stated small sub-space; direct-drive uses the verif shim (no logic) and a capturing write stream; an end-to-end tier checks what real early and late subscriber PeerConnections receive (gap-free consecutive numbers, copies keep their number).", "5/C01"),
- "C02": ("exploration", "input/output packet diff with pion's independent depacketisers at the down track's write stream",
-   "Every forwarded packet is diffed field by field against its source packet (length, timestamp, header, payload outside the picture-id field), markers only ever set on the last packet of a frame of the selected spatial layer, VP8 picture ids equal source id minus wholly withheld frames (7/15 bit, wrap). Held on the executions observed.",
+ "C02": ("exploration", "input/output packet diff with pion's independent depacketisers at the down track's write stream + end-to-end diff at real SRTP subscribers against the server's trace of withheld frames",
+   "Every forwarded packet is diffed field by field against its source packet (length, timestamp, header, payload outside the picture-id field), markers only ever set on the last packet of a frame of the selected spatial layer, VP8 picture ids equal source id minus wholly withheld frames (7/15 bit, wrap); the same comparison at real pion subscribers (incl. a late joiner, REMB-driven drops, 15-bit id wrap) of a real server. Held on the executions observed.",
    "In-order arrival for the picture-id clause (the property's scope); SSRC/PT compared against the binding.", "5/C02"),
  "C03": ("exploration", "log-against-log monitor: first transmissions vs responses to injected NACKs through the real gotNACK; Reverse/Map agreement on the public API",
    "Responses to 7 kinds of NACK sets must be byte-identical to the first transmission under the same number or absent; numbers never sent are never answered; withheld packets never resent. Held on the executions observed; one open known finding (marker recomputed after a spatial switch).",
